@@ -53,6 +53,20 @@ impl Row {
     }
 }
 
+/// Public wrapper over a packed row of 4-bit counters, for component-level monitors.
+#[cfg(feature = "verif")]
+pub struct VerifRow(Row);
+
+#[cfg(feature = "verif")]
+impl VerifRow {
+    pub fn from_bytes(bytes: Vec<u8>) -> Self { VerifRow(Row(bytes)) }
+    pub fn increment_at(&mut self, position: u64) { self.0.increment_at(position); }
+    pub fn get_at(&self, position: u64) -> FrequencyEstimate { self.0.get_at(position) }
+    pub fn half_counters(&mut self) { self.0.half_counters(); }
+    pub fn clear(&mut self) { self.0.clear(); }
+    pub fn bytes(&self) -> &[u8] { &self.0.0 }
+}
+
 const ROWS: usize = 4;
 
 /// FrequencyCounter is an implementation of count-min sketch based on 4 bit counter taken from
@@ -147,6 +161,18 @@ impl FrequencyCounter {
                 .collect::<Vec<Row>>();
 
         rows.try_into().unwrap()
+    }
+}
+
+#[cfg(feature = "verif")]
+impl FrequencyCounter {
+    pub(crate) fn verif_seeds(&self) -> [u64; ROWS] { self.seeds }
+
+    pub(crate) fn verif_total_counters(&self) -> u64 { self.total_counters }
+
+    /// Unpacked counters, row by row.
+    pub(crate) fn verif_matrix(&self) -> Vec<Vec<u8>> {
+        self.matrix.iter().map(|row| (0..(row.0.len() as u64) * 2).map(|position| row.get_at(position)).collect()).collect()
     }
 }
 
